@@ -88,3 +88,19 @@ plan("C20", [("lifecycle", 8, 60), ("slash", 6, 40)],
      rule="shadow (current, pending, due) per consumer stepped by accepted requests (partial requests merged, equal-to-current cancels, later replaces) and by "
           "block time (<=200 per block, schedule order); compared with parameters in force, queued record and raw schedule after every block; punishments "
           "(jail duration, slash fraction at the staking boundary) compared with the parameters in force; distinct = request kind x partial, apply offset class")
+
+plan("C18", [], tests=["TestC18Replicas"],
+     minobs={"replica-blocks-compared": 2000, "interesting-blocks": 100, "replica-runs": 6},
+     rule="worlds of several profiles are recorded (RequestInitChain and every RequestFinalizeBlock byte-exactly, per chain) and re-executed on fresh application "
+          "instances without probes: one replica in the same process, further replicas in separate processes (and, in the thorough tier, 4 concurrent replicas "
+          "per chain with concurrent queries in a -race process); SHA-256 digests of every response (whole, app hash, validator updates, tx results, events) "
+          "are compared block by block; race reports are judged only when the racing access itself is in x/ccv code; distinct = (profile, chain kind, chain)")
+
+plan("C19", [("lifecycle", 4, 30), ("valset", 3, 20), ("slash", 3, 20), ("keys", 2, 10)], tests=["TestC19Faults"], level="fault_enumeration",
+     minobs={"injected-executions": 50, "blocks-enumerated-exhaustively": 8, "call-sites:launch": 20, "call-sites:rewards": 20, "call-sites:delete": 4, "call-sites:send": 4},
+     rule="fault-free half: FinalizeBlock of every chain of every generated world must not return an error or panic (recovered and recorded by the driver). "
+          "Fault half: for each scenario block in which several consumers are launched / deleted / paid rewards / sent packets, the fault-free execution yields the "
+          "ordered list of boundary calls (client, connection, staking, slashing, bank, distribution, channel keepers; attributed to the per-consumer operation by "
+          "inspecting the call stack); the scenario is re-executed once per call site with an error injected at exactly that call (all call sites of the block = exhaustive "
+          "for that block); oracle: block does not fail, at most one consumer's result differs from the fault-free run, that consumer's keys equal its pre-block keys up to "
+          "the documented fallback, every other consumer equals the fault-free result; distinct = (scenario, call, position of the affected consumer)")
